@@ -245,6 +245,7 @@ func (s *Src) violate(kind string) {
 
 // Next implements stream.Stream[int].
 func (s *Src) Next(ctx context.Context) (int, error) {
+	sim.NoteProgress() // the library asking its source for an item is progress, not spinning
 	if len(s.Closed) > 0 {
 		s.violate("next-after-close")
 	}
@@ -309,6 +310,7 @@ func (s *Src) Next(ctx context.Context) (int, error) {
 
 // Close implements stream.Stream[int].
 func (s *Src) Close() {
+	sim.NoteProgress()
 	if sim.Tearing() {
 		return
 	}
